@@ -47,6 +47,11 @@ vars == <<mem, out>>
 Marker == <<255>>
 Ext == <<46, 121, 97, 109, 108>>     \* ".yaml"
 
+(* an account lives in the file <login>.yaml; a file name has at most 255 bytes, so a login of more than 250 bytes
+   cannot become an account: creating it is refused with an error and leaves no trace in any view, renaming to it
+   fails (no reply - the code's answer to a failed update) and leaves the old account intact *)
+TooLong(lg) == Len(lg) + Len(Ext) > 255
+
 NoGot == [login |-> <<>>, name |-> <<>>, acc |-> {}]
 Out(r) == [reply |-> r, got |-> NoGot]
 
@@ -88,7 +93,7 @@ Load(F) == [l \in {f.login : f \in F} |->
 InitWith(m) == mem = m /\ out = Out("ok")
 
 NewUser(s) ==
-  IF s.login \in DOMAIN mem
+  IF s.login \in DOMAIN mem \/ TooLong(s.login)
     THEN out' = Out("err") /\ UNCHANGED mem
     ELSE /\ mem' = Put(mem, s.login, [name |-> s.name, pw |-> CreatePw(s.pw), acc |-> s.acc])
          /\ out' = Out("ok")
@@ -109,12 +114,14 @@ SubEff(m, u) ==
   IF u.k = "del"
     THEN IF u.login \in DOMAIN m THEN [m |-> Drop(m, u.login), stop |-> ""] ELSE [m |-> m, stop |-> "none"]
     ELSE LET target == IF u.k = "ren" /\ u.old # <<>> THEN u.old ELSE u.login IN
-         IF target \in DOMAIN m
+         IF target \in DOMAIN m /\ TooLong(u.login)
+           THEN [m |-> m, stop |-> "none"]
+         ELSE IF target \in DOMAIN m
            THEN [m |-> Put(Drop(m, target), u.login,
                            [name |-> u.name, pw |-> NewPw(m[target].pw, u.pw), acc |-> u.acc]),
                  stop |-> ""]
            ELSE IF ~u.pw.has THEN [m |-> m, stop |-> "closed"]
-           ELSE IF u.login \in DOMAIN m THEN [m |-> m, stop |-> "err"]
+           ELSE IF u.login \in DOMAIN m \/ TooLong(u.login) THEN [m |-> m, stop |-> "err"]
            ELSE [m |-> Put(m, u.login, [name |-> u.name, pw |-> u.pw.v, acc |-> u.acc]), stop |-> ""]
 
 RECURSIVE RunSubs(_, _)
@@ -196,7 +203,7 @@ RoundFacts(pre, reqs, post) ==
       Kept(lg) == lg \in DOMAIN pre /\ lg \in DOMAIN post /\ SameRec(pre[lg], post[lg])
   IN (IF \E lg \in All : ReqsOn(lg) = {} /\ ~(Kept(lg) \/ (lg \notin DOMAIN pre /\ lg \notin DOMAIN post))
         THEN {"untouched"} ELSE {})
-     \cup (IF \E lg \in DOMAIN post \ DOMAIN pre : ~\E q \in ReqsOn(lg) : q.kind \in {"newuser", "put"}
+     \cup (IF \E lg \in DOMAIN post \ DOMAIN pre : ~\E q \in ReqsOn(lg) : q.kind \in {"newuser", "put"} /\ ~TooLong(lg)
         THEN {"appeared"} ELSE {})
      \cup (IF \E lg \in DOMAIN post : ~Kept(lg) /\ ~\E q \in ReqsOn(lg) : q.kind \in {"newuser", "setuser", "put"} /\ SameRec(ValOf(q), post[lg])
         THEN {"unwritten"} ELSE {})
@@ -219,4 +226,7 @@ ViewsAgree ==
 HashOnly == \A f \in FilesOf(mem) : DOMAIN f.hash = {"verifies"} /\ f.hash.verifies = mem[f.login].pw
 
 RestartIsIdentity == Load(FilesOf(mem)) = mem
+
+(* no account whose file name would not be a file name *)
+NoOverlongAccount == \A lg \in DOMAIN mem : ~TooLong(lg)
 =============================================================================
